@@ -58,6 +58,8 @@ type rig struct {
 	hook func(e *env, to int) (replace *bft.Message, drop bool)
 	// result of delivering a replaced message: receiver -> error text ("" = accepted)
 	replaced map[int]string
+	// alsoOriginal: the honest copy of a replaced message still arrives afterwards (gossip: both copies reach the receiver)
+	alsoOriginal bool
 }
 
 type replica struct {
@@ -69,8 +71,9 @@ type replica struct {
 	syn *atomic.Bool
 	omu sync.Mutex
 	// commit bookkeeping
-	gossiped atomic.Int32
-	done     bool
+	gossiped  atomic.Int32
+	done      bool
+	lastState string
 }
 
 func (p *replica) note(f string, a ...any) {
@@ -317,8 +320,13 @@ func cloneMsg(m *bft.Message) *bft.Message {
 // stepAll fires every replica's phase timer once (index order), then delivers everything that was sent.
 func (r *rig) stepAll() {
 	r.step++
+	barrier := r.someoneStillInRound() // evaluated once per step: everybody leaves the barrier together
 	for _, p := range r.R {
 		if p.done {
+			continue
+		}
+		if p.b.Phase == bft.Pacemaker && barrier {
+			// a replica that interrupted its round waits (msLeftInRound) until the round is over for everybody
 			continue
 		}
 		pre, g0 := p.b.Phase, p.gossiped.Load()
@@ -333,9 +341,19 @@ func (r *rig) stepAll() {
 			}
 			p.done = true
 		}
-		p.note("State(%s)", r.stateOf(p))
+		p.noteState()
 	}
 	r.deliverAll()
+}
+
+// someoneStillInRound reports whether a replica that has not committed is still working through the phases of the round.
+func (r *rig) someoneStillInRound() bool {
+	for _, q := range r.R {
+		if !q.done && q.b.Phase != bft.Pacemaker {
+			return true
+		}
+	}
+	return false
 }
 
 func (r *rig) deliverAll() {
@@ -343,27 +361,48 @@ func (r *rig) deliverAll() {
 		e := r.queue[0]
 		r.queue = r.queue[1:]
 		for _, to := range e.to {
-			m := e.msg
+			deliverOriginal := true
 			if r.hook != nil {
 				rep, drop := r.hook(e, to)
 				if drop {
 					continue
 				}
 				if rep != nil {
-					err := r.R[to].b.HandleMessage(cloneMsg(rep))
-					if err != nil {
-						r.replaced[to] = err.Error()
-					} else {
-						r.replaced[to] = ""
+					// the relay's version arrives (first); handlers mutate messages, so they get a wire clone
+					var cp *bft.Message
+					if bz, err := lib.Marshal(rep); err == nil {
+						cp = new(bft.Message)
+						if e := lib.Unmarshal(bz, cp); e != nil {
+							r.replaced[to] = "unmarshal: " + e.Error()
+							cp = nil
+						}
 					}
-					r.R[to].note("State(%s)", r.stateOf(r.R[to]))
-					continue
+					if cp != nil {
+						if err := r.R[to].b.HandleMessage(cp); err != nil {
+							r.replaced[to] = err.Error()
+						} else {
+							r.replaced[to] = ""
+						}
+					}
+					deliverOriginal = r.alsoOriginal
 				}
 			}
-			if err := r.R[to].b.HandleMessage(cloneMsg(m)); err != nil {
-				r.R[to].note("Reject(%s from %d: %s)", e.kind, e.from, err.Error())
+			if deliverOriginal {
+				if err := r.R[to].b.HandleMessage(cloneMsg(e.msg)); err != nil {
+					r.R[to].note("Reject(%s from %d: %s)", e.kind, e.from, err.Error())
+				}
 			}
+			r.R[to].noteState()
 		}
+	}
+}
+
+// noteState appends the replica's state digest to its trace when it changed.
+func (p *replica) noteState() {
+	s := p.r.stateOf(p)
+	if s != p.lastState {
+		p.lastState = s
+		p.note("State(%s)", s)
 	}
 }
 
